@@ -1,6 +1,6 @@
 """C13  Histogram merge, +=, *=, reset and views are exact bin-wise operations.  Engine K (+VL, structural)."""
 import os
-from common import Obligation, DISCHARGED, REFUTED, UNDECIDED, REPO, Undecided
+from common import Obligation, DISCHARGED, REFUTED, UNDECIDED, REPO, Undecided, guarded
 from hist_common import hist_job, hist_const_job, COMMON_META, F, FC
 from kani_engine import rsx_parse
 import subprocess, json
@@ -139,10 +139,21 @@ def views_rs(tier):
     sum_inv = T.sym("sum_inv")
     def buildv():
         return {"self": cr.mk("IterVariances", histogram_iter=AbsIter([((a, b), cnt)]), sum_inv=sum_inv)}, []
-    paths = Exec(cr).run(buildv, lambda e, r: e.call("IterVariances", "next", r["self"], []))
+    def bodyv(e, r):
+        first = e.call("IterVariances", "next", r["self"], [])
+        second = e.call("IterVariances", "next", r["self"], [])
+        return first, second
+    paths = Exec(cr).run(buildv, bodyv)
+    pr.no_panic("views.IterVariances.next.no_panic", FT + "::IterVariances::next", paths)
     for p in paths:
-        if not p.panic and isinstance(p.result, Opt) and p.result.some:
-            pr.eq("views.IterVariances.next.item", FT + "::IterVariances::next", p.pc, p.result.v, real(cnt) * (1 - real(cnt) * sum_inv))
+        if p.panic:
+            continue
+        first, second = p.result
+        # one item per bin, whatever its count (an adaptor that skips empty bins shifts every later item)
+        pr.holds("views.IterVariances.next.some_then_none", FT + "::IterVariances::next", [],
+                 TRUE if isinstance(first, Opt) and first.some and isinstance(second, Opt) and not second.some else FALSE)
+        if isinstance(first, Opt) and first.some:
+            pr.eq("views.IterVariances.next.item", FT + "::IterVariances::next", p.pc, first.v, real(cnt) * (1 - real(cnt) * sum_inv))
     # variance(i) and variances() on a histogram with 3 bins
     c = [T.sym("c%d" % i, UINT) for i in range(3)]
     edges = [T.sym("e%d" % i) for i in range(4)]
@@ -272,14 +283,14 @@ def confirm_mismatch(ob):
 def run(tier, seed):
     lens = [1, 2, 3, 4] if tier == "quick" else [1, 2, 3, 4, 10]
     job = hist_job("C13", lens, NAMES, unwind=14, timeout=900, harness_timeout=300)
-    obs = job.run()
+    obs = guarded("C13.engine.job.run@L275", lambda: job.run())
     mul_lens = [1, 2] if tier == "quick" else [1, 2, 3, 4]
-    obs += hist_job("C13", mul_lens, MUL, unwind=14, timeout=1200, harness_timeout=600).run()
-    obs += hist_const_job("C13", [1, 3], NAMES, unwind=8).run()           # const-generic copy: both tiers (seconds)
-    obs += structural("C13")
-    obs += views_rs(tier)
-    obs += views_bits_corpus()
-    obs += vl.run_lemmas("C13", ["merge_tree", "concat", "swap"])
+    obs += guarded("C13.engine.hist_job@L277", lambda: hist_job("C13", mul_lens, MUL, unwind=14, timeout=1200, harness_timeout=600).run())
+    obs += guarded("C13.engine.hist_const_job@L278", lambda: hist_const_job("C13", [1, 3], NAMES, unwind=8).run())           # const-generic copy: both tiers (seconds)
+    obs += guarded("C13.engine.structural@L279", lambda: structural("C13"))
+    obs += guarded("C13.engine.views_rs@L280", lambda: views_rs(tier))
+    obs += guarded("C13.engine.views_bits_corpus@L281", lambda: views_bits_corpus())
+    obs += guarded("C13.engine.vl.run_lemmas@L282", lambda: vl.run_lemmas("C13", ["merge_tree", "concat", "swap"]))
     meta = dict(COMMON_META)
     meta.update({
         "level": "proof",
